@@ -180,7 +180,13 @@ class Options:
             option_number += delta
             if len(rawdata) < length:
                 raise UnparsableMessage("Option announced but absent")
-            option = option_number.create_option(decode=rawdata[:length])
+            try:
+                option = option_number.create_option(decode=rawdata[:length])
+            except ValueError as e:
+                # eg. a string option that is not valid UTF-8
+                raise UnparsableMessage(
+                    "Option value does not match the option's format"
+                ) from e
             self.add_option(option)
             rawdata = rawdata[length:]
         return b""
